@@ -445,18 +445,20 @@ def C17():
 
 def C03():
     from contracts.pagination_core import AssignPages
+    from contracts.headers import RenderColumnHeaders
     from contracts.strwidth import GetStringWidth
     from contracts.replay_pagination import replay_assign_pages
     return Property(
-        "C03", units=_budget_units() + [ContractUnit(AssignPages()), ContractUnit(GetStringWidth()), _section_unit()] + _strategy_units(), level="proof",
+        "C03", units=_budget_units() + [ContractUnit(AssignPages()), ContractUnit(GetStringWidth()), _section_unit(), ContractUnit(RenderColumnHeaders())]
+        + _strategy_units(), level="proof",
         technique="budget inequalities carried by contracts on the real code: reserved rows = [subline] + #headers with text + [footnote] + [source] "
                   "(counting invariant); per row data_rows >= 1 and >= int(W/width)+1 >= ceil(W/width) for every displayed cell at that cell's own font and "
                   "size (column-loop invariant with ghost displayed-column count); total = data + page_by heading rows; _assign_pages keeps every page's "
                   "sum within max(1, nrow - reserved) or to a single row; composition lemmas",
         trusted_base=[SOLVERS, ENGINE, POLARS, "W = get_string_width is the line-width oracle the property names; floats as reals (L3)"],
-        assumptions=["rows RENDERED per page for column headers, page-top / continuation group headings and table-rendered footnote/source "
-                     "(PageRenderer.render, _render_column_headers) are not yet under contract: the comparison 'rendered <= reserved' per component is "
-                     "open in this check (design section 5 lists the default-header and continuation-heading findings to be encoded there)",
+        assumptions=["rendered <= reserved is checked for column headers (a header row is rendered only for a header whose own text is set, which is what the "
+                     "reservation counts; the auto-populated default header is the recorded known finding); for page-top / continuation group headings "
+                     "and table-rendered footnote/source the comparison is not yet under contract in this check",
                      "one column width per displayed column and the reservation reaching the strategy are proved at the call site (unit EncodeBodySection) "
                      "relative to the assumed result of prepare_dataframe_for_body_encoding"],
         replayers={"pagination/core.py::PageBreakCalculator._assign_pages": replay_assign_pages}, design_ref="4/C03, A2-A3")
